@@ -298,11 +298,17 @@ Lemma binop_correct op lt rt st2 st' a b v :
 Proof.
   intros HC HE. unfold compile_binop in HC. unfold eval_binop in HE.
   destruct op;
+    try (destruct (val_equals a b) as [t|] eqn:EV; [|discriminate]; inversion HE; subst;
+         (eexists; split; [exact HC|]; split; [reflexivity|]; split; [reflexivity|]; split; [reflexivity|];
+          intros arg cs ls gs; cbn [pure_sem]; rewrite EV; reflexivity));
     try (destruct lt, rt; try discriminate; destruct a, b; try discriminate;
          cbn [num_binop str_binop] in HC;
          (eexists; split; [exact HC|]; split; [reflexivity|]; split; [reflexivity|]; split; [reflexivity|];
           intros arg cs ls gs; cbn [pure_sem num2 str2];
-          repeat match type of HE with context [if ?c then _ else _] => destruct c end;
+          repeat match type of HE with
+                 | context [if ?c then _ else _] => destruct c
+                 | context [match arr_repeat ?g ?r ?l with _ => _ end] => destruct (arr_repeat g r l)
+                 end;
           try discriminate; inversion HE; reflexivity)).
 Qed.
 
@@ -352,10 +358,65 @@ Proof.
     inversion H; subst. cbn [List.length elist_len]. rewrite <- (IH vt eq_refl). lia.
 Qed.
 
+(* the pairs of a map literal on the stack: key, value, key, value, …, the first key deepest *)
+Definition flatp (m : list (list N * value)) : list value := flat_map (fun kv => [VStr (fst kv); snd kv]) m.
+
+Definition pairs_correct (l : eplist) : Prop :=
+  forall env st st' m,
+    compile_pairs true l st = COk st' -> eval_pairs env l = Some m ->
+    csym st' = csym st /\
+    exists seg newc,
+      ccode st' = ccode st ++ seg /\ cconsts st' = cconsts st ++ newc /\
+      forall p s more pre post,
+        pcode p = pre ++ seg ++ post ->
+        pconsts p = map const_value (cconsts st') ++ more ->
+        ip s = N.of_nat (List.length pre) ->
+        vars_hold env (csym st) (locals s) (globals s) ->
+        N.of_nat (List.length (locals s)) + N.of_nat (List.length (ostack s)) + edepth_pairs l <= StackSize ->
+        run_tol p s (List.length seg) (flatp m).
+
+Lemma eval_pairs_len env : forall l m, eval_pairs env l = Some m -> Z.of_nat (List.length m) = pairs_len l.
+Proof.
+  induction l as [|k e t IH]; intros m H; simpl in H.
+  - inversion H; reflexivity.
+  - destruct (eval_expr env e); [|discriminate]. destruct (eval_pairs env t) as [mt|] eqn:E; [|discriminate].
+    inversion H; subst. cbn [List.length pairs_len]. rewrite <- (IH mt eq_refl). lia.
+Qed.
+
+Lemma flatp_length m : List.length (flatp m) = (2 * List.length m)%nat.
+Proof. induction m as [|kv t IH]; [reflexivity|]. cbn [flatp flat_map app List.length] in *. unfold flatp in IH. rewrite IH. lia. Qed.
+
+(* OpMap rebuilds the pairs in source order from the popped values *)
+Lemma map_pairs_flat : forall m acc, map_pairs (rev (flatp m)) acc = Some (m ++ acc).
+Proof.
+  induction m as [|[k v] t IH] using rev_ind; intro acc; [reflexivity|].
+  unfold flatp. rewrite flat_map_app. cbn [flat_map fst snd app]. rewrite rev_app_distr. cbn [rev app map_pairs].
+  fold (flatp t). rewrite IH, <- app_assoc. reflexivity.
+Qed.
+
+(* an optional slice bound: the expression, or OpNone *)
+Definition oexpr_correct (o : oexpr) : Prop :=
+  forall env st st' v,
+    compile_oexpr true o st = COk st' -> eval_oexpr env o = Some v ->
+    csym st' = csym st /\
+    exists seg newc,
+      ccode st' = ccode st ++ seg /\ cconsts st' = cconsts st ++ newc /\
+      forall p s more pre post,
+        pcode p = pre ++ seg ++ post ->
+        pconsts p = map const_value (cconsts st') ++ more ->
+        ip s = N.of_nat (List.length pre) ->
+        vars_hold env (csym st) (locals s) (globals s) ->
+        N.of_nat (List.length (locals s)) + N.of_nat (List.length (ostack s)) + edepth_o o <= StackSize ->
+        run_to p s (List.length seg) v.
+
+Lemma edepth_o_pos o : 1 <= edepth_o o.
+Proof. destruct o; cbn [edepth_o]; [lia|apply edepth_pos]. Qed.
+
 Theorem compile_expr_correct_all :
   (forall e, efrag e = true -> expr_correct e) /\
   (forall l, efrag_list l = true -> elist_correct l) /\
-  (forall p : eplist, True) /\ (forall o : oexpr, True).
+  (forall l, efrag_pairs l = true -> pairs_correct l) /\
+  (forall o, efrag_o o = true -> oexpr_correct o).
 Proof.
   apply expr_mutind; try (intros; exact I).
   - (* ENum *) intros f HF; unfold expr_correct; intros env st st' v HC HE.
@@ -430,7 +491,38 @@ Proof.
     + unfold s1; simpl. rewrite EN, firstn_app, firstn_all, Nat.sub_diag. cbn [firstn]. rewrite app_nil_r.
       cbn [pure_sem]. rewrite rev_involutive. reflexivity.
     + unfold s1; simpl. rewrite EN, app_length. replace (List.length (rev vs) + List.length (ostack s) - List.length (rev vs))%nat with (List.length (ostack s)) by lia. lia.
-  - (* EMap *) intros kvs _ np HF. discriminate HF.
+  - (* EMap *) intros kvs IHl np HF; unfold expr_correct; intros env st st' v HC HE.
+    cbn [efrag] in HF. apply andb_true_iff in HF. destruct HF as [HNP HF]. apply Z.eqb_eq in HNP. subst np.
+    simpl in HC. bind_inv HC. cbn [eval_expr] in HE.
+    destruct (eval_pairs env kvs) as [m|] eqn:Evs; [|discriminate]. cbn [option_map] in HE. inversion HE; subst v.
+    destruct (IHl HF env st st0 m H Evs) as (A & seg & newc & B & C & D).
+    apply emit_ok in HC. destruct HC as (ins & HM & ->). cbn [csym ccode cconsts].
+    pose proof (make_some_range Map _ _ eq_refl HM) as HRng.
+    destruct (make_arg_bytes Map (pairs_len kvs)) as (hi & lo & HM' & E); [reflexivity|lia|].
+    rewrite HM in HM'. inversion HM'; subst ins; clear HM'.
+    pose proof (eval_pairs_len env kvs m Evs) as HLen.
+    split; [exact A|]. exists (seg ++ [N_of_opc Map; hi; lo]), newc.
+    split; [rewrite B, app_assoc; reflexivity|]. split; [exact C|].
+    intros p s more pre post H1 H2 H4 H5 H6. cbn [edepth] in H6.
+    assert (R1 : run_tol p s (List.length seg) (flatp m)).
+    { eapply (D p s more pre ([N_of_opc Map; hi; lo] ++ post)).
+      - rewrite H1, <- !app_assoc. reflexivity.
+      - exact H2.
+      - exact H4.
+      - exact H5.
+      - lia. }
+    destruct R1 as (n1 & R1).
+    set (s1 := {| ip := ip s + N.of_nat (List.length seg); ostack := rev (flatp m) ++ ostack s; locals := locals s; globals := globals s |}) in *.
+    exists (n1 + 1)%nat. eapply vm_steps_trans; [exact R1|]. simpl.
+    rewrite (fetch_arg p s1 Map hi lo (pre ++ seg) post); [|rewrite H1, <- !app_assoc; reflexivity|unfold s1; simpl; rewrite H4, app_length; lia|reflexivity].
+    assert (EN : N.to_nat (2 * (hi * 256 + lo)) = List.length (rev (flatp m))) by (rewrite rev_length, flatp_length, E; lia).
+    rewrite (exec_pure p s1 Map _ _ (2 * (hi * 256 + lo))%N (VMap m)); try reflexivity.
+    + unfold s1; cbn [ostack locals globals ip]. rewrite EN, skipn_app, skipn_all, Nat.sub_diag. cbn [skipn app].
+      rewrite app_length. cbn [List.length]. f_equal. f_equal. lia.
+    + unfold s1; cbn [ostack locals globals ip]. rewrite EN, app_length. lia.
+    + unfold s1; cbn [ostack locals globals ip]. rewrite EN, firstn_app, firstn_all, Nat.sub_diag. cbn [firstn]. rewrite app_nil_r.
+      cbn [pure_sem]. rewrite map_pairs_flat, app_nil_r. reflexivity.
+    + unfold s1; cbn [ostack locals globals ip]. rewrite EN, app_length. replace (List.length (rev (flatp m)) + List.length (ostack s) - List.length (rev (flatp m)))%nat with (List.length (ostack s)) by lia. lia.
   - (* EUn *) intros op e IHe HF; try (destruct op; discriminate HF); unfold expr_correct; intros env st st' v HC HE.
     assert (HF1 : efrag e = true) by (destruct op; simpl in HF; congruence).
     specialize (IHe HF1). simpl in HC. bind_inv HC.
@@ -544,7 +636,59 @@ Proof.
     + unfold s2, s1; simpl; lia.
     + unfold s2, s1; simpl. apply HPS.
     + unfold s2, s1; simpl. pose proof (edepth_pos e2). lia.
-  - (* ESlice *) intros l _ a _ b _ HF. discriminate HF.
+  - (* ESlice *) intros l IHl a IHa b IHb HF; unfold expr_correct; intros env st st' v HC HE.
+    cbn [efrag] in HF. apply andb_true_iff in HF. destruct HF as [HF HF3]. apply andb_true_iff in HF. destruct HF as [HF1 HF2].
+    cbn [compile_expr] in HC.
+    apply bind_ok in HC; destruct HC as (c3 & HC3 & HC). apply bind_ok in HC3; destruct HC3 as (c2 & HC2 & HCb).
+    apply bind_ok in HC2; destruct HC2 as (c1 & HCl & HCa).
+    cbn [eval_expr] in HE. destruct (eval_expr env l) as [x|] eqn:El; [|discriminate].
+    destruct (eval_oexpr env a) as [va|] eqn:Ea; [|discriminate]. destruct (eval_oexpr env b) as [vb|] eqn:Eb; [|discriminate].
+    destruct (IHl HF1 env st c1 x HCl El) as (A1 & seg1 & newc1 & B1 & C1 & D1).
+    destruct (IHa HF2 env c1 c2 va HCa Ea) as (A2 & seg2 & newc2 & B2 & C2 & D2).
+    destruct (IHb HF3 env c2 c3 vb HCb Eb) as (A3 & seg3 & newc3 & B3 & C3 & D3).
+    assert (HPS : forall arg cs ls gs, pure_sem Slice arg cs ls gs [vb; va; x] = POk v).
+    { intros arg cs ls gs. cbn [pure_sem]. destruct (slice_value x va vb); inversion HE; reflexivity. }
+    destruct (noarg_step _ _ _ HC eq_refl) as (A' & B' & C').
+    split; [congruence|]. exists (seg1 ++ seg2 ++ seg3 ++ [N_of_opc Slice]), (newc1 ++ newc2 ++ newc3).
+    split; [rewrite C', B3, B2, B1, <- !app_assoc; reflexivity|].
+    split; [rewrite B', C3, C2, C1, <- !app_assoc; reflexivity|].
+    intros p s more pre post H1 H2 H4 H5 H6. cbn [edepth] in H6.
+    pose proof (edepth_o_pos a) as Pa. pose proof (edepth_o_pos b) as Pb.
+    assert (R1 : run_to p s (List.length seg1) x).
+    { eapply (D1 p s (map const_value (newc2 ++ newc3) ++ more) pre (seg2 ++ seg3 ++ [N_of_opc Slice] ++ post)).
+      - rewrite H1, <- !app_assoc. reflexivity.
+      - rewrite H2, B', C3, C2, !map_app, <- !app_assoc. reflexivity.
+      - exact H4.
+      - exact H5.
+      - lia. }
+    destruct R1 as (n1 & R1).
+    set (s1 := {| ip := ip s + N.of_nat (List.length seg1); ostack := x :: ostack s; locals := locals s; globals := globals s |}) in *.
+    assert (R2 : run_to p s1 (List.length seg2) va).
+    { eapply (D2 p s1 (map const_value newc3 ++ more) (pre ++ seg1) (seg3 ++ [N_of_opc Slice] ++ post)).
+      - rewrite H1, <- !app_assoc. reflexivity.
+      - rewrite H2, B', C3, map_app, <- app_assoc. reflexivity.
+      - unfold s1; simpl. rewrite H4, app_length. lia.
+      - unfold s1; simpl. rewrite A1. exact H5.
+      - unfold s1; cbn [ostack locals List.length]. lia. }
+    destruct R2 as (n2 & R2).
+    set (s2 := {| ip := ip s1 + N.of_nat (List.length seg2); ostack := va :: ostack s1; locals := locals s1; globals := globals s1 |}) in *.
+    assert (R3 : run_to p s2 (List.length seg3) vb).
+    { eapply (D3 p s2 more (pre ++ seg1 ++ seg2) ([N_of_opc Slice] ++ post)).
+      - rewrite H1, <- !app_assoc. reflexivity.
+      - rewrite H2, B'. reflexivity.
+      - unfold s2, s1; simpl. rewrite H4, !app_length. lia.
+      - unfold s2, s1; simpl. rewrite A2, A1. exact H5.
+      - unfold s2, s1; cbn [ostack locals List.length]. lia. }
+    destruct R3 as (n3 & R3).
+    set (s3 := {| ip := ip s2 + N.of_nat (List.length seg3); ostack := vb :: ostack s2; locals := locals s2; globals := globals s2 |}) in *.
+    exists (n1 + (n2 + (n3 + 1)))%nat. eapply vm_steps_trans; [exact R1|]. eapply vm_steps_trans; [exact R2|]. eapply vm_steps_trans; [exact R3|]. simpl.
+    rewrite (fetch_noarg p s3 Slice (pre ++ seg1 ++ seg2 ++ seg3) post);
+      [|rewrite H1, <- !app_assoc; reflexivity|unfold s3, s2, s1; simpl; rewrite H4, !app_length; lia|reflexivity].
+    rewrite (exec_pure p s3 Slice 0 _ 3 v eq_refl eq_refl).
+    + unfold s3, s2, s1; simpl. rewrite !app_length. simpl. f_equal. f_equal. lia.
+    + unfold s3, s2, s1; simpl; lia.
+    + unfold s3, s2, s1; simpl. exact (HPS 0 [] [] []).
+    + unfold s3, s2, s1; simpl. lia.
   - (* EGroup *) intros e IHe HF; unfold expr_correct; intros env st st' v HC HE.
     simpl in HF, HC, HE. destruct (IHe HF env st st' v HC HE) as (A & seg & newc & B & C & D).
     split; [exact A|]. exists seg, newc. split; [exact B|]. split; [exact C|]. exact D.
@@ -581,6 +725,58 @@ Proof.
     destruct R2 as (n2 & R2).
     exists (n1 + n2)%nat. eapply vm_steps_trans; [exact R1|]. rewrite R2. unfold s1; simpl.
     rewrite app_length, <- app_assoc. simpl. f_equal. f_equal. lia.
+  - (* PNil *) intros _ env st st' m HC HE. simpl in HC, HE. inversion HC; subst st'. inversion HE; subst m.
+    split; [reflexivity|]. exists [], []. split; [rewrite app_nil_r; reflexivity|]. split; [rewrite app_nil_r; reflexivity|].
+    intros p s more pre post _ _ _ _ _. exists 0%nat. simpl. destruct s; simpl. f_equal. f_equal. lia.
+  - (* PCons *) intros k e IHe t IHt HF env st st' m HC HE.
+    cbn [efrag_pairs] in HF. apply andb_true_iff in HF. destruct HF as [HF1 HF2].
+    cbn [compile_pairs] in HC. bind_inv HC. bind_inv H. cbn [eval_pairs] in HE.
+    destruct (eval_expr env e) as [v|] eqn:Ev; [|discriminate]. destruct (eval_pairs env t) as [mt|] eqn:Evt; [|discriminate].
+    inversion HE; subst m.
+    destruct (const_correct _ _ _ H0) as (A0 & seg0 & B0 & C0 & D0).
+    destruct (IHe HF1 env st1 st0 v H Ev) as (A1 & seg1 & newc1 & B1 & C1 & D1).
+    destruct (IHt HF2 env st0 st' mt HC Evt) as (A2 & seg2 & newc2 & B2 & C2 & D2).
+    split; [congruence|]. exists (seg0 ++ seg1 ++ seg2), ([KStr k] ++ newc1 ++ newc2).
+    split; [rewrite B2, B1, B0, <- !app_assoc; reflexivity|]. split; [rewrite C2, C1, C0, <- !app_assoc; reflexivity|].
+    intros p s more pre post H1 H2 H4 H5 H6. cbn [edepth_pairs] in H6. pose proof (edepth_pos e) as HP.
+    assert (R0 : run_to p s (List.length seg0) (const_value (KStr k))).
+    { eapply (D0 p s (map const_value (newc1 ++ newc2) ++ more) pre (seg1 ++ seg2 ++ post)).
+      - rewrite H1, <- !app_assoc. reflexivity.
+      - rewrite H2, C2, C1, !map_app, <- !app_assoc. reflexivity.
+      - exact H4.
+      - lia. }
+    destruct R0 as (n0 & R0).
+    set (s0 := {| ip := ip s + N.of_nat (List.length seg0); ostack := const_value (KStr k) :: ostack s; locals := locals s; globals := globals s |}) in *.
+    assert (R1 : run_to p s0 (List.length seg1) v).
+    { eapply (D1 p s0 (map const_value newc2 ++ more) (pre ++ seg0) (seg2 ++ post)).
+      - rewrite H1, <- !app_assoc. reflexivity.
+      - rewrite H2, C2, map_app, <- app_assoc. reflexivity.
+      - unfold s0; simpl. rewrite H4, app_length. lia.
+      - unfold s0; simpl. rewrite A0. exact H5.
+      - unfold s0; cbn [ostack locals List.length]. lia. }
+    destruct R1 as (n1 & R1).
+    set (s1 := {| ip := ip s0 + N.of_nat (List.length seg1); ostack := v :: ostack s0; locals := locals s0; globals := globals s0 |}) in *.
+    assert (R2 : run_tol p s1 (List.length seg2) (flatp mt)).
+    { eapply (D2 p s1 more (pre ++ seg0 ++ seg1) post).
+      - rewrite H1, <- !app_assoc. reflexivity.
+      - exact H2.
+      - unfold s1, s0; simpl. rewrite H4, !app_length. lia.
+      - unfold s1, s0; simpl. rewrite A1, A0. exact H5.
+      - unfold s1, s0; cbn [ostack locals List.length]. lia. }
+    destruct R2 as (n2 & R2).
+    exists (n0 + (n1 + n2))%nat. eapply vm_steps_trans; [exact R0|]. eapply vm_steps_trans; [exact R1|]. rewrite R2. unfold s1, s0; simpl.
+    rewrite !app_length, <- !app_assoc. simpl. f_equal. f_equal. lia.
+  - (* ONoneE *) intros _ env st st' v HC HE. cbn [compile_oexpr] in HC. cbn [eval_oexpr] in HE. inversion HE; subst v.
+    destruct (noarg_step _ _ _ HC eq_refl) as (A & B & C).
+    split; [exact A|]. exists [N_of_opc ONone], []. split; [exact C|]. split; [rewrite app_nil_r; exact B|].
+    intros p s more pre post H1 H2 H4 _ H6. cbn [edepth_o] in H6. eapply run_one.
+    + rewrite (fetch_noarg p s ONone pre post H1 H4 eq_refl).
+      apply (exec_pure p s ONone _ _ 0 VNone); try reflexivity.
+      * simpl; lia.
+      * change (N.to_nat 0) with 0%nat. lia.
+    + reflexivity.
+  - (* OSome *) intros e IHe HF env st st' v HC HE. cbn [efrag_o] in HF. cbn [compile_oexpr] in HC. cbn [eval_oexpr edepth_o] in *.
+    exact (IHe HF env st st' v HC HE).
 Qed.
 
 Theorem compile_expr_correct_v : forall e, efrag e = true -> expr_correct e.
